@@ -29,7 +29,13 @@ def ws (c : Char) : Bool :=
   n == 0x3000
 
 def lstrip (s : Text) : Text := s.dropWhile ws
-def rstrip (s : Text) : Text := (s.reverse.dropWhile ws).reverse
+/-- `s.rstrip()`: the shortest prefix after which only blanks follow -/
+def rstrip : Text → Text
+  | [] => []
+  | c :: t =>
+    match rstrip t with
+    | [] => if ws c then [] else [c]
+    | r => c :: r
 /-- `s.strip()` -/
 def strip (s : Text) : Text := lstrip (rstrip s)
 
@@ -49,7 +55,9 @@ def join (d : Char) : List Text → Text
   | f :: g :: fs => f ++ d :: join d (g :: fs)
 
 /-- `s.rsplit(d, 1)[-1]` -/
-def afterLast (d : Char) (s : Text) : Text := (s.reverse.takeWhile (fun c => c != d)).reverse
+def afterLast (d : Char) : Text → Text
+  | [] => []
+  | c :: t => if t.contains d then afterLast d t else if c = d then t else c :: t
 
 /-- `s.startswith('#')` -/
 def startsHash : Text → Bool
@@ -151,7 +159,7 @@ def rowTriples [Zero α] [DecidableEq α] (i : Nat) : Nat → List α → List (
   | _, [] => []
   | j, v :: vs => if v = 0 then rowTriples i (j + 1) vs else (i, j, v) :: rowTriples i (j + 1) vs
 
-/-- the data loop from `data_start` on: (obs_ids, data, metadata) -/
+/-- the data loop over the lines from `data_start` on, `i` = `row_number`: (obs_ids, data, metadata) -/
 def dataLoop [Zero α] [DecidableEq α] (io : NumIO α) (numeric : Bool) :
     List Text → Nat → Except Err (List Text × List (Nat × Nat × α) × List Text)
   | [], _ => .ok ([], [], [])
@@ -179,14 +187,14 @@ def extractData [Zero α] [DecidableEq α] (io : NumIO α) (lines : List Text) :
   | none => .error .type
   | some h =>
     if numeric || dataStart == 0 then
-      match dataLoop io numeric body dataStart with
+      match dataLoop io numeric body 0 with
       | .error e => .error e
       | .ok (os, ts, _) => .ok { samp := h, obs := os, triples := ts, md := none, mdName := none }
     else
       match h.getLast? with
       | none => .error .index
       | some nm =>
-        match dataLoop io false body dataStart with
+        match dataLoop io false body 0 with
         | .error e => .error e
         | .ok (os, ts, ms) => .ok { samp := h.dropLast, obs := os, triples := ts, md := some ms, mdName := some nm }
 
@@ -224,6 +232,20 @@ def fromTsv [Zero α] [DecidableEq α] (io : NumIO α) (proc : Text → ν) (lin
                omd := match x.md, x.mdName with
                  | some ms, some nm => some (ms.map (fun s => (nm, proc s)))
                  | _, _ => none }
+
+/-- `biom convert` from a classic table: `load_table` (no processing function), then
+`--process-obs-metadata` applied to the single category afterwards; it is refused when the table
+came without a metadata column. -/
+def cliImport [Zero α] [DecidableEq α] (io : NumIO α) (ident proc : Text → ν) (requested : Bool)
+    (lines : List Text) : Except Err (Imported α ν) :=
+  match fromTsv io (fun s => s) lines with
+  | .error e => .error e
+  | .ok t =>
+    let retag (f : Text → ν) : Imported α ν :=
+      { obs := t.obs, samp := t.samp, rows := t.rows, omd := t.omd.map (·.map (fun p => (p.1, f p.2))) }
+    if requested then
+      (if t.omd.isNone then .error .value else .ok (retag proc))
+    else .ok (retag ident)
 
 /-- export then import, the composition the property is about -/
 def roundTrip [Zero α] [DecidableEq α] (io : NumIO α) (fmtMd : μ → Text) (proc : Text → ν)
@@ -388,8 +410,10 @@ def linesToJson : Except Err (List Text) → Json
   | .ok ls => textsToJson ls
 
 /-- requests:
-  {"op":"roundtrip", "export":…, "formatter":…, "processor":…, "fmtOracle":…, "parseOracle":…,
-   "implLines": [...] | {"error":…}, "results":[{"route":…, "eol":…, "table": imported | {"error":…}}…]}
+  {"op":"roundtrip", "export":…, "formatter":…, "fmtOracle":…, "parseOracle":…,
+   "implLines": [...] | {"error":…},
+   "results":[{"route":…, "lines":[what the reader yields], "processor":…, "checkMd":bool,
+               "table": imported | {"error":…}}…]}
   {"op":"extract", "lines":[…], "parseOracle":…, "impl": extracted | {"error":…}}
   {"op":"ws"}  → code points Lean's `ws` accepts -/
 def handle (req : Json) : R Json := do
@@ -411,29 +435,37 @@ def handle (req : Json) : R Json := do
     let e ← asExport (← fld req "export")
     let io ← asIO req
     let fmtMd := formatterOf (← strF req "formatter")
-    let proc := processorOf (← strF req "processor")
     let mlines := toTsv io fmtMd e
     let mlj := linesToJson mlines
     let ilj ← fld req "implLines"
     let results ← listF (fun r => do
-      pure ((← strF r "route"), (← asText (← fld r "eol")), (← fld r "table"))) req "results"
+      pure ((← strF r "route"), (← listF asText r "lines"), (← strF r "processor"), (← boolF r "checkMd"),
+            (← boolFD r "cli" false), (← boolFD r "requested" false), (← boolFD r "agreeMd" true),
+            (← fld r "table"))) req "results"
     let mut verdict : Verdict := none
     let mut agree := mlj.compress == ilj.compress
     let mut what : List String := if agree then [] else ["to_tsv lines"]
     let mut models : List (String × Json) := []
-    for (route, eol, tj) in results do
+    let mut mh := true
+    for (route, lines, pname, checkMd, cli, requested, agreeMd, tj) in results do
       let imp ← asImported tj
-      match holdsV e imp with
+      let e' : Export Num MdVal := if checkMd then e else { e with md := none }
+      match holdsV e' imp with
       | some c => if verdict.isNone then verdict := some (c ++ "@" ++ route)
       | none => pure ()
-      let m := roundTrip io fmtMd proc eol e
+      let proc := processorOf pname
+      -- the model's importer on the lines the reader handed to the real importer
+      let m := if cli then cliImport io procNaive proc requested lines else fromTsv io proc lines
       let mj := importedToJson m
-      if mj.compress != (importedToJson imp).compress then
+      let dropMd (x : Except Err (Imported Num MdVal)) : Except Err (Imported Num MdVal) :=
+        if agreeMd then x else x.map (fun t => { t with omd := none })
+      if (importedToJson (dropMd m)).compress != (importedToJson (dropMd imp)).compress then
         agree := false
         what := what ++ ["from_tsv@" ++ route]
-      if !(models.any (fun p => p.1 == String.ofList eol)) then
-        models := models ++ [(String.ofList eol, mj)]
-    let mh := results.all (fun (_, eol, _) => holds e (roundTrip io fmtMd proc eol e))
+      -- the theorem's composition: model export, uniform line end, model import
+      let eol : Text := if lines.all (fun l => l.getLast? == some '\n') then ['\n'] else []
+      mh := mh && holds e' (roundTrip io fmtMd proc eol e)
+      models := models ++ [(route, mj)]
     pure (Json.mkObj (verdictToJson verdict ++ [("agree", .bool agree), ("what", strsToJson what),
       ("model_holds", .bool mh),
       ("model", Json.mkObj [("lines", mlj), ("imported", Json.mkObj models)])]))
